@@ -280,6 +280,7 @@ def run(rep, progs, tier):
     rep.rule("C18.fresh-buffer", "connect hands over an empty receive state (buffer cleared / count 0) after the greeting")
     rep.rule("C18.greeting-grammar", "'OK MPD ' + non-empty non-LF version + LF")
     rep.rule("C18.version", "Client::protocol_version derives from the connection's version")
+    rep.rule("C18.malformed", "a parse error of the greeting that is not 'incomplete' ends in Err(InvalidMessage) (C09's rule on the connect loops)")
     rep.trusted = ["rustc MIR construction", "mpdfacts exporter", "tokio::spawn semantics", "MPD greeting format"]
     for cfg, prog in progs.items():
         if cfg != "K3":
@@ -291,3 +292,8 @@ def run(rep, progs, tier):
         valid_prefix_rule(rep, prog, cfg, rule="C18.greeting-input", which=("blocking/connect", "async/connect"))
         from .C02 import count_scope_rule
         count_scope_rule(rep, prog, cfg, rule="C18.greeting-input", which=("blocking/connect", "async/connect"))
+        # "a malformed greeting yields the invalid-message error": how the connect loops classify the greeting parser's errors
+        # is C09's rule (with the cross-site condition on `Failure`), decided here for C18's clause
+        from .C09 import invalid_rule
+        with rep.importing("C09.invalid", "C18.malformed"):
+            invalid_rule(rep, prog, cfg)
